@@ -147,6 +147,18 @@ func (L *ledger) applySend(e ev) {
 	}
 }
 
+// chunkAt returns the size of the queued payload (chunk of the reference model) that the byte at offset off of
+// stream s belongs to, 0 if there is none.
+func (L *ledger) chunkAt(s uint32, off int) int {
+	for _, c := range L.chunks[s] {
+		if off < c.n {
+			return c.n
+		}
+		off -= c.n
+	}
+	return 0
+}
+
 func (L *ledger) known(s uint32) bool {
 	for _, x := range L.streams {
 		if x == s {
@@ -182,7 +194,11 @@ func (L *ledger) eval(ctx string, add func(sig, format string, a ...interface{})
 			continue
 		}
 		if d.MaxFrame > limit {
-			if lowered {
+			if q := L.chunkAt(d.Stream, L.recvPay[d.Stream]); lowered && q > 2*limit {
+				// the payload the frame is a piece of was accepted under a limit of more than twice the present one:
+				// it needs three or more frames now (a class of its own: one cut is not enough here)
+				add(L.dir+":I2:frame_exceeds_lowered_max_frame_size:data:queued_payload_over_twice_the_limit", "%s: DATA frame of %d bytes (a piece of a payload of %d bytes the relay had accepted and queued under the earlier, larger limit) arrived after the receiver had lowered MAX_FRAME_SIZE to %d and had seen that SETTINGS frame acknowledged", ctx, d.MaxFrame, q, limit)
+			} else if lowered {
 				add(L.dir+":I2:frame_exceeds_lowered_max_frame_size:data", "%s: DATA frame of %d bytes arrived after the receiver had lowered MAX_FRAME_SIZE to %d and had seen that SETTINGS frame acknowledged", ctx, d.MaxFrame, limit)
 			} else {
 				add(L.dir+":I2:frame_exceeds_max_frame_size:data", "%s: DATA frame of %d bytes exceeds the receiver's MAX_FRAME_SIZE %d", ctx, d.MaxFrame, limit)
